@@ -65,6 +65,7 @@ class C18(World):
         "OpenPinch.classes.stream.Stream / StreamCollection (emitted stream sets)",
         "CoolProp low-level AbstractState inside the cycle object (real property library)",
         "OpenPinch.analysis.heat_pump_targeting._compute_multi_simple_hp_system_performance with _create_multi_simple_hp_list / _build_simulated_hps_streams / get_process_heat_cascade (the targeting pipeline's own use of the cycle class, on a generated two-point background profile)",
+        "OpenPinch.analysis.heat_pump_targeting Carnot-style placement objectives (_get_optimal_min_evap_T_for_multi_temperature_carnot_hp, _compute_multi_temperature_carnot_hp_opt_obj, _compute_multi_simple_carnot_hp_opt_obj, _get_carnot_hp_streams) on generated background profiles",
     ]
     components_stub = []
     fault_kinds = ["solve_failure"]
@@ -72,7 +73,7 @@ class C18(World):
     rule = (
         "each run = one generated history (3-16 steps) on 1-2 cycle objects: solve(fluid, Te, Tc, dT_sh, dT_sc, eta, Q, ihx_gas_dt=0), "
         "build(cond) / build(evap) / build(both), dtcont / dt_diff_max assignment, metric reads, re-solve with new arguments, deliberately "
-        "failing solves, cascade (the targeting pipeline's objective function evaluated on 1-3 generated cycles, optionally twice, with every solve / build_stream_collection call it makes monitored and judged like a direct one); fluids 70 % mainstream refrigerants, 30 % any CoolProp fluid; temperatures inside [max(Ttriple,Tmin)+5 K, Tcrit-10 K] "
+        "failing solves, cascade (the targeting pipeline's objective function evaluated on 1-3 generated cycles, optionally twice, with every solve / build_stream_collection call it makes monitored and judged like a direct one), carnot (the pipeline's Carnot-style placement objectives evaluated 2-3 times with the same argument objects on a generated background profile: first law, emitted latent streams, same answer, arguments untouched); fluids 70 % mainstream refrigerants, 30 % any CoolProp fluid; temperatures inside [max(Ttriple,Tmin)+5 K, Tcrit-10 K] "
         "with lift >= dT_sh + dT_sc + 2 K (+12 K for zeotropic blends).  distinct = distinct step list; non-trivial = >=1 successful solve followed by >=2 stream-set requests "
         "or a re-solve."
     )
@@ -102,6 +103,7 @@ class C18(World):
             w_build=sw.choice([1, 3]),
             w_resolve=sw.choice([0, 1, 2]),
             w_cascade=sw.choice([0, 0.5, 1.5, 6]),
+            w_carnot=sw.choice([0, 0, 0.5, 2]),
             unit_systems=[sw.choice(["EUR", "EUR", "SI", "KSI"]) for _ in range(2)],
         )
         if self.tier == "thorough" and sw.random() < 0.3:
@@ -173,7 +175,7 @@ class C18(World):
                 solved[o] = True
             else:
                 w = swarm["w_build"]
-                cand = [("cascade", swarm["w_cascade"]), ("renew", 0.4), ("build_cond", 2 * w), ("build_evap", 2 * w), ("build_both", 1 * w), ("set_dtcont", 0.7), ("set_dtdiff", 0.3), ("set_system", 0.25), ("set_state", 0.3), ("read", 0.7), ("solve", 1.0 * swarm["w_resolve"]), ("solve_fail", 10 * swarm["p_fail"])]
+                cand = [("cascade", swarm["w_cascade"]), ("carnot", swarm["w_carnot"]), ("renew", 0.4), ("build_cond", 2 * w), ("build_evap", 2 * w), ("build_both", 1 * w), ("set_dtcont", 0.7), ("set_dtdiff", 0.3), ("set_system", 0.25), ("set_state", 0.3), ("read", 0.7), ("solve", 1.0 * swarm["w_resolve"]), ("solve_fail", 10 * swarm["p_fail"])]
                 op = ops.choices([k for k, _ in cand], [x for _, x in cand])[0]
                 if op == "solve" and args.random() < 0.4:
                     # re-solve the same operating point with ONE argument changed (resolved at execution from the object's last request)
@@ -198,6 +200,23 @@ class C18(World):
                             nm = nm.upper()  # the pipeline upper-cases configured refrigerant names
                         hps.append(dict(refrigerant=nm, Te=g["Te"], Tc=g["Tc"], dT_sh=g["dT_sh"], dT_sc=g["dT_sc"], Q=float(g["Q"])))
                     st = dict(op=op, hps=hps, eta=float(args.choice([1.0, 0.9, 0.7, 0.7, 0.5])), dt_ihx=(5.0 if args.random() < 0.08 else 0.0), repeat=args.random() < 0.5)
+                elif op == "carnot":
+                    # the Carnot-style placement objectives of the targeting pipeline on a generated background profile
+                    # (the property's second anchor: first-law bookkeeping of Carnot-style placements)
+                    k = args.choice([2, 3, 5, 8])
+                    Th = sorted((round(args.uniform(20, 150), 2) for _ in range(k)), reverse=True)
+                    Tcd = sorted((round(args.uniform(40, 200), 2) for _ in range(k)), reverse=True)
+                    dh = [args.choice([0.0, round(args.uniform(1, 500), 3), round(args.uniform(1, 500), 3)]) for _ in range(k - 1)]
+                    dc = [args.choice([0.0, round(args.uniform(1, 500), 3), round(args.uniform(1, 500), 3)]) for _ in range(k - 1)]
+                    if not any(dh):
+                        dh[0] = 100.0
+                    if not any(dc):
+                        dc[-1] = 100.0
+                    nc_ = args.choice([1, 2, 3])
+                    kind = args.choice(["anchor", "multi_temperature", "multi_simple"])
+                    ne_ = nc_ if kind == "multi_simple" else args.choice([1, 2, 3])
+                    nx = (nc_ - 1 + ne_) if kind == "multi_simple" else (nc_ + ne_ - 1)
+                    st = dict(op=op, kind=kind, T_hot=Th, T_cold=Tcd, dH_hot=dh, dH_cold=dc, n_cond=nc_, n_evap=ne_, x=[args.choice([0.0, 0.0003, round(args.uniform(0, 0.4), 4), round(args.uniform(0, 0.4), 4), round(args.uniform(0, 0.15), 4)]) for _ in range(nx)], T_lo=round(args.uniform(Th[-1] - 5, Th[0]), 2), price_ratio=args.choice([1.0, 2.0, 0.5]), repeats=args.choice([2, 3]))
                 elif op == "renew":
                     st = dict(op=op)
                     solved[o] = False
@@ -219,7 +238,7 @@ class C18(World):
 
     def nontrivial(self, trace):
         ops = [s["op"] for s in trace["steps"]]
-        return ("solve" in ops and (sum(o.startswith("build") for o in ops) >= 2 or ops.count("solve") >= 2)) or "cascade" in ops
+        return ("solve" in ops and (sum(o.startswith("build") for o in ops) >= 2 or ops.count("solve") >= 2)) or "cascade" in ops or "carnot" in ops
 
     # ---------------------------------------------------------------- execution
     def execute(self, trace):
@@ -585,6 +604,83 @@ class C18(World):
                     V("cascade_repeat", "cascade", step, "the same cascade evaluated twice with the same arguments gave different stream sets / work")
             return "ok:" + prng.digest(answers[0])
 
+        def run_carnot(step, st):
+            """Carnot-style placements (the property's second anchor): the pipeline's objective functions are evaluated the way its
+            optimisers evaluate them - again and again with the same argument objects - and judged on first-law bookkeeping
+            (condenser duties = evaporator duties + work), on the emitted latent stream sets carrying exactly those duties, on
+            giving the same answer every time, and on leaving the argument arrays they were handed untouched."""
+            import numpy as np
+            from OpenPinch.analysis import heat_pump_targeting as HPT
+            from OpenPinch.lib.schema import HeatPumpTargetInputs
+
+            T_hot, T_cold = np.array(st["T_hot"], dtype=float), np.array(st["T_cold"], dtype=float)
+            H_hot = np.concatenate([[0.0], -np.cumsum(st["dH_hot"])])
+            H_cold = np.concatenate([np.cumsum(st["dH_cold"][::-1])[::-1], [0.0]])
+            if not (H_cold[0] > 0 and H_hot[-1] < 0):
+                probe("carnot_empty_profile")
+                return "skip:empty"
+            rng_ = float(max(T_cold[0], T_hot[0]) - min(T_cold[-1], T_hot[-1]))
+            try:
+                hargs = HeatPumpTargetInputs(Q_hp_target=float(H_cold[0]), Q_amb_max=0.0, T_hot=T_hot, H_hot=H_hot, T_cold=T_cold, H_cold=H_cold, dt_range_max=rng_, is_direct_integration=True, is_heat_pumping=True, n_cond=st["n_cond"], n_evap=st["n_evap"], eta_comp=0.7, eta_exp=0.7, eta_hp_carnot=0.5, eta_he_carnot=0.5, dtcont_hp=0.0, dt_hp_ihx=0.0, T_env=15.0, dt_env_cont=5.0, dt_phase_change=0.1, refrigerant_ls=["R134a"], price_ratio=st["price_ratio"], max_multi_start=1)
+            except Exception as e:
+                probe("carnot_inputs_not_constructible")
+                return "skip:" + type(e).__name__
+            x = np.array(st["x"], dtype=float)
+            kind = st["kind"]
+            held = {}
+            if kind == "anchor":
+                x_cond, x_evap = HPT._parse_multi_temperature_carnot_hp_state_variables(x, st["n_cond"])
+                T_cond = HPT._map_x_to_T_cond(x_cond, hargs.T_cold[0], hargs.dt_range_max)
+                Q_cond = HPT._get_Q_vals_from_T_hp_vals(T_cond, hargs.T_cold, hargs.H_cold, True)
+                held = dict(T_cond=T_cond, Q_cond=Q_cond, x_evap=x_evap)
+                call = lambda: HPT._get_optimal_min_evap_T_for_multi_temperature_carnot_hp(st["T_lo"], [hargs, T_cond, Q_cond, x_evap, None])
+            elif kind == "multi_temperature":
+                call = lambda: HPT._compute_multi_temperature_carnot_hp_opt_obj(x, hargs)
+            else:
+                call = lambda: HPT._compute_multi_simple_carnot_hp_opt_obj(x, hargs)
+            held.update(x=x, T_hot=hargs.T_hot, H_hot=hargs.H_hot, T_cold=hargs.T_cold, H_cold=hargs.H_cold)
+            snap = lambda: {k_: np.array(v, dtype=float).tobytes() for k_, v in held.items()}
+            before = snap()
+            answers = []
+            site = "carnot|" + kind
+            for rep in range(int(st.get("repeats", 2))):
+                try:
+                    res = call()
+                except Exception as e:
+                    probe("carnot_raised")
+                    return "raise:" + type(e).__name__
+                if "work_hp" not in res:
+                    probe("carnot_rejected")
+                    return "ok:rejected"
+                qc, qe, wk = float(np.sum(res["Q_cond"])), float(np.sum(res["Q_evap"])), float(res["work_hp"])
+                scale = max(abs(qc), abs(qe), abs(wk), 1e-12)
+                if not all(np.isfinite(v) for v in (qc, qe, wk)):
+                    probe("carnot_non_finite")
+                    return "ok:nonfinite"
+                probe("carnot_evaluated")
+                tick("carnot_first_law")
+                if abs(qc - qe - wk) > 1e-9 * scale:
+                    V("carnot_first_law", site, step, f"Carnot placement: condenser duties {qc!r} != evaporator duties {qe!r} + work {wk!r}")
+                tick("carnot_inputs")
+                if snap() != before:
+                    changed = sorted(k_ for k_, v in snap().items() if v != before[k_])
+                    V("carnot_inputs", site, step, f"evaluation {rep + 1} rewrote the argument arrays it was handed: {changed}")
+                    before = snap()
+                try:
+                    ss = HPT._get_carnot_hp_streams(np.array(res["T_cond"], dtype=float), np.array(res["Q_cond"], dtype=float), np.array(res["T_evap"], dtype=float), np.array(res["Q_evap"], dtype=float), hargs)
+                    hot = sum(s_.heat_flow for s_ in ss["hp_hot_streams"])
+                    cold = sum(s_.heat_flow for s_ in ss["hp_cold_streams"])
+                    tick("carnot_duty")
+                    if abs(hot - qc) > 1e-9 * scale or abs(cold - qe) > 1e-9 * scale:
+                        V("carnot_duty", site, step, f"latent stream sets carry {hot!r} / {cold!r}, the placement reports {qc!r} / {qe!r}")
+                except Exception:
+                    probe("carnot_streams_raised")
+                answers.append([[repr(float(v)) for v in np.ravel(res[k_])] for k_ in ("T_cond", "Q_cond", "T_evap", "Q_evap")] + [repr(wk)])
+            tick("carnot_repeat")
+            if any(a_ != answers[0] for a_ in answers[1:]):
+                V("carnot_repeat", site, step, "the same placement evaluated again with the same argument objects gave another answer")
+            return "ok:" + prng.digest(answers[0])
+
         prev_op = None
         for step, st in enumerate(trace["steps"]):
             op = st["op"]
@@ -663,6 +759,8 @@ class C18(World):
                         probe("failed_solve_leaves_unsolved")
             elif op == "cascade":
                 outcome = run_cascade(step, st)
+            elif op == "carnot":
+                outcome = run_carnot(step, st)
             elif op == "renew":
                 # a new cycle object constructed while others are already solved (as the targeting code does)
                 objs[o] = c = SimpleHeatPumpCycle(usys[(o + 1) % len(usys)])
